@@ -6,4 +6,6 @@ export CARGO_NET_OFFLINE=true
 mkdir -p target .work evidence replays
 ( cd engines/simx && CARGO_TARGET_DIR=../../target/simx cargo build --release --offline 2>&1 | tail -2 )
 ( cd engines/seqx && CARGO_TARGET_DIR=../../target/seqx cargo build --release --offline 2>&1 | tail -2 )
+python3 engines/mirror/mirror.py shuttle /repo /tmp/vx-mirror-shuttle-$(id -u) >/dev/null && ( cd /tmp/vx-mirror-shuttle-$(id -u) && CARGO_TARGET_DIR=$OLDPWD/target/shutx cargo build --release --offline 2>&1 | tail -2 ); rm -rf /tmp/vx-mirror-shuttle-$(id -u)
+python3 engines/mirror/mirror.py loom /repo /tmp/vx-mirror-loom-$(id -u) >/dev/null && ( cd /tmp/vx-mirror-loom-$(id -u) && CARGO_TARGET_DIR=$OLDPWD/target/loomx cargo build --release --offline 2>&1 | tail -2 ); rm -rf /tmp/vx-mirror-loom-$(id -u)
 echo "setup done"
